@@ -305,6 +305,17 @@ func tokStr(b *bytes.Buffer, t *token.Token) {
 	b.WriteString(">")
 }
 
+// StructFPSkip: StructFP without the list elements whose kind is in skip.
+func StructFPSkip(n ast.Vertex, skip map[string]bool) string {
+	b := &bytes.Buffer{}
+	fpSkip = skip
+	fp(n, b, false)
+	fpSkip = nil
+	return b.String()
+}
+
+var fpSkip map[string]bool
+
 func fp(n ast.Vertex, b *bytes.Buffer, full bool) {
 	if IsNil(n) {
 		b.WriteString("nil")
@@ -328,6 +339,9 @@ func fp(n ast.Vertex, b *bytes.Buffer, full bool) {
 				for j := 0; j < fv.Len(); j++ {
 					if fv.Index(j).IsNil() {
 						b.WriteString("nil,")
+						continue
+					}
+					if fpSkip != nil && fpSkip[KindName(fv.Index(j).Interface().(ast.Vertex))] {
 						continue
 					}
 					fp(fv.Index(j).Interface().(ast.Vertex), b, full)
